@@ -701,6 +701,21 @@ let () =
               chk "res" (res_string ~kind o = post.res);
               chk "drops" (sorted_n (observable_drops evs.e_dropped) = sorted_n post.dropped);
               chk "hashes_le" (Z.equal (z_of_n post.hashes) Z.zero);
+              (* C06 on the consuming iterator, as a statement about the observation alone: what the iterator handed out and what was
+                 dropped during its life are, together and WITHOUT REPETITION, exactly the objects the cache held (a forgotten
+                 iterator may lose some, but still hands out or drops nothing twice and nothing it did not hold).  The handed-out
+                 objects are read off the item list, which is only meaningful when the items are the expected ones (`res`). *)
+              if not (List.mem "res" !failed) && post.res <> "panic" then begin
+                let ret = (match o with OItems l -> List.concat_map (function
+                    | Some ((k : key), (v : val0)) -> (if kind <> 2 then [k.ktok] else []) @ (if kind <> 1 then [v.vtok] else [])
+                    | None -> []) l | _ -> []) in
+                let zs l = List.sort Z.compare (List.map z_of_n (observable_drops l)) in
+                let before = zs (all_toks pre.st.ents) and after = zs (post.dropped @ ret) in
+                let rec nodup = function x :: (y :: _ as r) -> not (Z.equal x y) && nodup r | _ -> true in
+                let rec sub a b = (match a, b with [], _ -> true | _, [] -> false
+                                   | x :: a', y :: b' -> if Z.equal x y then sub a' b' else if Z.gt x y then sub a b' else false) in
+                chk "mon_c06" (nodup after && (if f = FForget then sub after before else (List.length after = List.length before && sub after before)))
+              end;
               (* B level: the extracted owning iterator (B/CloneB.v, proved to refine do_into_iter) run on the observed pointer graph *)
               (match gstate_of pre with
                | Some g0 ->
